@@ -318,7 +318,7 @@ func c08XMLDocs(n int, reduced bool, visit func(doc string) bool) {
 		{"default-and-prefix-same-uri", ` xmlns="u" xmlns:p="u"`, "", []string{"", "p:"}},
 	}
 	contents := []string{"", "t", " ", "&amp;&#65;", "<![CDATA[<x>]]>", "<!--c-->", "<?pi x?>", "t<!--c-->u", "a<![CDATA[b]]>c"}
-	attrs := []string{"", ` k="1"`, ` P:k="2"`, ` xml:lang="en"`, ` k="1" P:k="2"`, ` k=""`}
+	attrs := []string{"", ` k="1"`, ` P:k="2"`, ` xml:lang="en"`, ` k="1" P:k="2"`, ` k=""`, ` P:xmlns="u"`}
 	names := []string{"a", "b"}
 	if reduced {
 		contents = []string{"", "t", "t<!--c-->u"}
